@@ -11,7 +11,9 @@ from pathlib import Path
 
 import numpy as np
 
-from common import COQ, REPO, VERIF, Run, TranslateError, get_function, strip_doc, write_if_changed
+from fractions import Fraction
+
+from common import COQ, REPO, VERIF, Run, TranslateError, coq_eval_many, get_function, parse_evals, strip_doc, write_if_changed
 import c17
 
 PID = "C08"
@@ -105,6 +107,32 @@ def translate():
     resume_ok = "self._initialize_from_resume(resume_state_path)" in rs and "iter_val=self.state.get_current('iter')" in rs \
         and "t0=int(iter_val)ifiter_valisnotNoneelse0" in rs
 
+    # ---- the iteration pipeline and the counters (Model/RunBook.v)
+    body = [_ns(x) for x in strip_doc(ex.body)]
+    order = ["weights=self.reweighter.run()", "mode_stats=self.trainer.run(weights)", "self.resampler.run(weights)", "self.mutator.run(mode_stats)",
+             "self.state.commit_current_to_history()"]
+    need(all(o in body for o in order), ex, "reweight, train, resample, mutate, commit are statements of execute_iteration", "core.py:execute_iteration")
+    pos = [body.index(o) for o in order]
+    need(pos == sorted(pos) and isinstance(strip_doc(ex.body)[0], ast.If) and "save_every" in _ns(strip_doc(ex.body)[0].test) and pos[0] == 1
+         and sum(1 for x in body if ".run(" in x) == 4 and sum(1 for x in body if "commit_current_to_history" in x) == 1, ex,
+         "checkpoint test first, then reweight -> train -> resample -> mutate (once each), then one commit", "core.py:execute_iteration")
+    # the iteration counter is advanced once per iteration (in Reweighter.run) and set nowhere else in the steps / kernels
+    iter_writes = []
+    for f in sorted((REPO / "tempest").rglob("*.py")):
+        for node in ast.walk(ast.parse(f.read_text())):
+            if isinstance(node, ast.Call) and _ns(node.func).endswith(("set_current",)) and node.args and _ns(node.args[0]) in ("'iter'", '"iter"'):
+                iter_writes.append((f.name, _ns(node)))
+            if isinstance(node, ast.Call) and _ns(node.func).endswith(("update_current",)) and node.args and isinstance(node.args[0], ast.Dict):
+                if any(isinstance(k_, ast.Constant) and k_.value == "iter" for k_ in node.args[0].keys):
+                    iter_writes.append((f.name, "update_current({...'iter'...})"))
+    need(sorted(iter_writes) == sorted([("core.py", "self.state.set_current('iter',0)"), ("core.py", "self.state.set_current('iter',t0)"),
+                                        ("reweight.py", "self.state.set_current('iter',iter_val)")]), ex, f"writes of the iteration counter: {iter_writes}", "package")
+    rwsrc = _ns(get_function(REPO / "tempest" / "steps" / "reweight.py", "Reweighter.run"))
+    need(rwsrc.count("iter_val=self.state.get_current('iter')+1") == 1 and rwsrc.count("self.state.set_current('iter',iter_val)") == 1, ex,
+         "Reweighter.run advances the iteration counter by one, once", "reweight.py")
+    fresh = _ns(get_function(path, "SamplerCore._initialize_fresh"))
+    need("self.state.set_current('iter',0)" in fresh and "self.state.set_current('calls',0)" in fresh, ex, "a fresh run starts both counters at 0", "core.py")
+
     def b(x):
         return str(bool(x)).lower()
 
@@ -120,6 +148,9 @@ Definition pool_restored_in_finally : bool := {b(restored_in_finally)}.
 Definition save_exports_state_with_to_dict : bool := {b(to_dict)}.
 Definition resume_sets_t0_from_restored_iter : bool := {b(resume_ok)}.
 Definition saves_at (iter t0 every : nat) : bool := Nat.eqb ((iter - t0) mod every) 0 && negb (Nat.eqb iter t0).
+Definition iteration_is_checkpoint_reweight_train_resample_mutate_commit : bool := true.
+Definition iteration_counter_advanced_once_per_iteration_in_reweight : bool := true.
+Definition fresh_run_starts_counters_at_zero : bool := true.
 """
     write_if_changed(COQ / "Gen" / "Checkpoint.v", text)
 
@@ -267,6 +298,97 @@ def roundtrip_and_resume(run, tier, rng, work):
     run.sample(dict(kind="roundtrip", cfgs=[str(c) for c in cfgs], checkpoints_first_cfg=len(snaps)))
 
 
+def runbook_probe(run, tier, rng, work):
+    """The run-level bookkeeping (iteration numbers, call counter, recorded steps, checkpoints written) of fresh and resumed runs
+    against the Coq state machine Model/RunBook.v, driven by what the adaptive parts decided (beta, kernel steps, batch size)."""
+    from tempest import Sampler
+
+    def like(x):
+        return -np.inf if x[0] < -1.0 else -0.5 * float(np.sum(x ** 2))
+
+    def mk(outdir, n, **kw):
+        return Sampler(pt, like, n_dim=2, n_particles=n, clustering=False, output_dir=str(outdir), output_label="ck", **kw)
+
+    def trace(s):
+        st = s.state
+        return [dict(iter=int(i), calls=int(c), steps=int(sp), beta=float(b), n=len(l)) for i, c, sp, b, l in
+                zip(st.get_history("iter"), st.get_history("calls"), st.get_history("steps"), st.get_history("beta"), st._history["logl"])]
+
+    def written(outdir):
+        return sorted(int(p.name.split("_")[1].split(".")[0]) for p in Path(outdir).iterdir()
+                      if p.name.startswith("ck_") and p.name.split("_")[1].split(".")[0].isdigit())
+
+    def orc(r):
+        fr = Fraction(r["beta"])
+        return f"(mkOrc ({fr.numerator} # {fr.denominator}) {r['steps']}%nat {r['n']}%nat)"
+
+    jobs = []
+    reps = 3 if tier == "quick" else 10
+    for t in range(reps):
+        seed = rng.randrange(2 ** 31)
+        e1, e2 = rng.choice([1, 2, 3]), rng.choice([1, 2, 3])
+        n1, n2 = rng.choice([8, 12]), rng.choice([8, 12, 20])
+        what = dict(np_seed=seed, save_every=e1, resume_save_every=e2, n_particles=n1, resume_n_particles=n2)
+        d1 = work / f"rb{t}"
+        try:
+            np.random.seed(seed)
+            s = mk(d1, n1, ess_ratio=3.0, sample=rng.choice(["tpcn", "rwm"]))
+            s.run(n_total=40, progress=False, save_every=e1)
+            tr1 = trace(s)
+            ks = written(d1)
+            if not ks:
+                run.fail("no-checkpoints", f"run(save_every={e1}) over {len(tr1)} iterations wrote no numbered checkpoint", **what)
+                continue
+            k = rng.choice(ks)
+            d2 = work / f"rb{t}_resume"
+            s2 = mk(d2, n2, ess_ratio=3.0)
+            s2.run(n_total=90, progress=False, save_every=e2, resume_state_path=d1 / f"ck_{k}.state")
+            tr2 = trace(s2)
+            ks2 = written(d2)
+        except Exception as e:
+            run.fail("run-raises", f"{type(e).__name__}: {e}", **what)
+            continue
+        run.case(key=("runbook", t), nontrivial=True)
+        jobs.append((what, e1, e2, k, tr1, ks, tr2, ks2))
+    if not jobs:
+        return
+    items = []
+    for (what, e1, e2, k, tr1, ks, tr2, ks2) in jobs:
+        os1 = "[" + "; ".join(orc(r) for r in tr1) + "]"
+        pre = "[" + "; ".join(orc(r) for r in tr1[:k]) + "]"
+        os2 = "[" + "; ".join(orc(r) for r in tr2[k:]) + "]"
+        items.append(f"(enc (run (Some {e1}%nat) 0%nat {os1} fresh), "
+                     f"enc (run (Some {e2}%nat) (iter (run (Some {e1}%nat) 0%nat {pre} fresh)) {os2} (resume_from (run (Some {e1}%nat) 0%nat {pre} fresh))))")
+    src = f"""From Coq Require Import List QArith.
+From Tempest Require Import Model.RunBook.
+Import ListNotations.
+Definition enc (s : book) := (map (fun r => [h_iter r; h_calls r; h_steps r]) (hist s), saved s).
+Eval vm_compute in [
+{(';' + chr(10)).join(items)}
+].
+"""
+    (ok, out), = coq_eval_many(run.scratch, [src], timeout=300)
+    if not ok:
+        run.broken.append(("runbook-coqc", out[-1500:]))
+        return
+    res = parse_evals(out)[0]
+    for (what, e1, e2, k, tr1, ks, tr2, ks2), item in zip(jobs, res):
+        h1, sv1, (h2, sv2) = item            # Coq prints ((a, b), (c, d)) as (a, b, (c, d))
+        got1 = [[r["iter"], r["calls"], r["steps"]] for r in tr1]
+        got2 = [[r["iter"], r["calls"], r["steps"]] for r in tr2]
+        if got1 != [list(x) for x in h1] or ks != list(sv1):
+            run.disagree("fresh run: (iteration, calls, steps) per committed iteration and numbered checkpoints vs Model/RunBook.v",
+                         impl=dict(history=got1, checkpoints=ks), model=dict(history=[list(x) for x in h1], checkpoints=list(sv1)), **what)
+            run.fail("run-bookkeeping", f"fresh run: history {got1} / checkpoints {ks}; the bookkeeping model driven by the run's own decisions gives "
+                     f"{[list(x) for x in h1]} / {list(sv1)}", **what)
+        if got2 != [list(x) for x in h2] or ks2 != list(sv2):
+            run.disagree("resumed run: (iteration, calls, steps) per committed iteration and numbered checkpoints vs Model/RunBook.v",
+                         impl=dict(history=got2, checkpoints=ks2), model=dict(history=[list(x) for x in h2], checkpoints=list(sv2)), resumed_from=k, **what)
+            run.fail("resume-bookkeeping", f"resumed from checkpoint {k}: history {got2} / checkpoints {ks2}; the model continuing the run gives "
+                     f"{[list(x) for x in h2]} / {list(sv2)}", resumed_from=k, **what)
+    run.count("runbook_cases", len(jobs))
+
+
 def crash_injection(run, tier, work):
     env = dict(os.environ)
     env["PYTHONPATH"] = str(REPO)
@@ -406,7 +528,9 @@ def main(tier, seed):
                 "written; (ii) resume from first/middle/last checkpoint: numbering, bit-identical prefix, monotone "
                 "beta/calls, run postconditions; (iii) the save's IO trace; (iv) the save is re-run in a subprocess "
                 "that dies (os._exit) before each IO event and inside each write at several byte fractions, after "
-                "which the final name must hold the old or the new complete checkpoint.")
+                "which the final name must hold the old or the new complete checkpoint; (v) fresh and resumed runs (other save cadence, other "
+                "n_particles) against the bookkeeping machine Model/RunBook.v evaluated in Coq on the run's own decisions: iteration numbers, "
+                "call counter, recorded steps, numbered checkpoints written.")
     run.assumptions = [
         "file-system crash model: un-fsynced bytes may survive in any prefix, rename is atomic, a directory entry "
         "survives once created; dill.load accepts complete dumps and rejects strict prefixes",
@@ -415,15 +539,20 @@ def main(tier, seed):
     rng = random.Random(seed)
     try:
         translate()
+        import c13
+        import c05
+        c13.translate()    # call accounting (rows per iteration) of the bookkeeping machine
+        c05.translate()    # which iterations draw a fresh prior batch (warm-up <=> beta == 0)
         run.obligation("translate:core.save_sampler_state+load_sampler_state+cadence", True)
     except Exception as e:  # fail closed: anything the translator cannot digest
         run.obligation("translate:core.save_sampler_state+load_sampler_state+cadence", False, str(e))
-    run.prove("Props/C08.v", link_rels=["Link/Alias.v", "Link/Checkpoint.v"])
+    run.prove("Props/C08.v", link_rels=["Link/Alias.v", "Link/Checkpoint.v", "Link/Dispatch.v", "Link/Schedule.v"], extra_targets=["Model/RunBook.v"])
     work = Path(tempfile.mkdtemp(prefix="c08_", dir=run.scratch.dir))
     cwd = os.getcwd()
     try:
         os.chdir(work)
         roundtrip_and_resume(run, tier, rng, work)
+        runbook_probe(run, tier, rng, work)
         crash_injection(run, tier, work)
     except Exception:
         import traceback
